@@ -64,8 +64,8 @@ CHECKS = {
          "Functions are continuous and strictly increasing (recorded signs are checked to be monotone). float64. Accuracy is judged only for runs that max_iter cannot have cut short; evaluation-point equality, exact-hit return and bracket discipline are implementation-layer (drift notes, not violations).",
          "DESIGN.md 4.3, 5 (C10)"),
  "C11": ("exploration",
-         "TLA+ history machine over raw parameter leaves (Params.tla; TLC -simulate produces the update histories) bound to real models by trace validation: the abstraction of the constrained values recorded after every update is validated by TLC against Trace_Params.tla; constructor round trips and rejections judged directly",
-         "Every TLC history (set a leaf / one element / alternating signs / a ramp to any grid value in +-50) is applied with eqx.tree_at to Affine, Scale, TriangularAffine, StudentT, Normal, Exponential, mixture, two splines, planar (tanh, leaky 0.1, leaky 2.0), weight normalisation and a masked autoregressive flow with the min-scale affine, in float64 and float32, plus real optimisers with absurd learning rates; after every update the clauses (strictly positive, normalised, knots strictly increasing and spanning the interval, derivatives >= min_derivative, planar invertible, rows keep their norm) are recorded and TLC rejects any history in which one fails. Round trips over magnitudes 1e-6..1e6 and rejection of every invalid argument class the property names.",
+         "TLA+ model of the constraint mechanisms in exact rationals (Constraints.tla: planar projection, floored-softmax knots, weight normalisation, softplus + floor, log-softmax weights; TLC proves each clause on every case and every case is replayed into the real objects) and a TLA+ history machine over raw parameter leaves (Params.tla; TLC -simulate produces the update histories) bound to real models by trace validation: the abstraction of the constrained values recorded after every update is validated by TLC against Trace_Params.tla; constructor round trips and rejections judged directly",
+         "Every TLC history (set a leaf / one element / alternating signs / a ramp to any grid value in +-50) is applied with eqx.tree_at to Affine, Scale, TriangularAffine, StudentT, Normal, Exponential, mixture, two splines, planar (tanh, leaky 0.1, leaky 2.0), weight normalisation and a masked autoregressive flow with the min-scale affine, in float64 and float32, plus real optimisers with absurd learning rates; after every update the clauses (strictly positive, normalised, knots strictly increasing and spanning the interval, derivatives >= min_derivative, planar invertible, rows keep their norm) are recorded and TLC rejects any history in which one fails. Constraints.tla: 9.5e4 states, every mechanism x every input of a finite rational domain (planar: 2-vectors w, u over 7 integers x 5 slopes x 2 scalings; knots: softmax numerators incl. an underflowed weight x 3 floors x 3 intervals; rows down to 1e-9), the clause as an invariant (and the slope > 1 defect, reinstated in the model, must violate it); each case is rebuilt on the real object in float64 and float32 and the constrained values compared with the model's formula. Round trips over magnitudes 1e-6..1e6 and rejection of every invalid argument class the property names.",
          "Exploration level: that softplus / softmax outputs stay positive in floating point is decided by running the code; the specification contributes the histories and the single statement of the invariants. Three known findings are listed in known_findings.json (planar w.u underflow, planar w == 0, weight-normalised zero row).",
          "DESIGN.md 4.10, 5 (C11)"),
  "C12": ("model_checking",
